@@ -207,7 +207,7 @@ impl Prop for C08 {
         "generated histories: 1-12 edges (length 5 m - 20 km, table speed 3-130, grade -0.25..0.25 incl. steep downhill) x vehicle {ICE Camry, BEV Bolt, PHEV Volt} over the bundled models wrapped in a continuous interpolation x battery capacity 0.05-100 kWh x starting charge in [0,100] or invalid (-5, 100.01, text, null, missing) x unit configuration of the time model (3 speed x 5 distance x 4 time units), of the energy service (distance unit, speed unit, a time unit of its own that differs from the time feature's), of the grade table (3 units) x real-world adjustment none or 0.5-2 x vehicle built directly or (1 in 20) through the application's vehicle builders from configuration JSON x prediction cache off or size 1-64 with precisions -1..3. The real EnergyTraversalModel is driven edge by edge; oracle: reference energy = model rate at the reference speed/grade x adjustment x length, charge = clamp(charge - 100 x electric energy / capacity), PHEV mode by charge at entry, additivity, best-case estimate = ideal rate x great-circle distance, with a cache the reference is the range of the model over the bucket of speeds and grades sharing the edge's cache key. non-trivial = >= 3 edges with a negative-energy edge and a clamp at 0 or 100, or a PHEV history that crosses from electric to liquid".to_string()
     }
     fn cases(&self, tier: Tier) -> u32 {
-        tier.pick(20_000, 600_000)
+        tier.pick(60_000, 1_500_000)
     }
     fn assumptions(&self) -> Vec<String> {
         vec![
